@@ -61,3 +61,36 @@ Theorem rate_modifier_colon_refuted :
   parse_rate_mods ["3:Tgas > 100.0 ? 1.0e-9 : 0.0"] = Some [("3", "Tgas > 100.0 ? 1.0e-9")].
 Proof. vm_compute. reflexivity. Qed.
 Print Assumptions rate_modifier_colon_refuted.
+
+(** ODE modifiers included: the --ode-modifier text written for a list of
+    modifiers (distinct species, every item free of the separators : , ; [ ] and
+    with blank-free dependency names) is parsed back to exactly that list ... *)
+From Naunet Require Import Proofs.ConfigOde.
+
+Theorem ode_modifiers_roundtrip : forall ms, ode_ok ms ->
+  parse_ode_mods [join ";"%char (flat_map print_om ms)] [] = Some ms.
+Proof. exact parse_ode_mods_print_lemma. Qed.
+Print Assumptions ode_modifiers_roundtrip.
+
+(* ... and the whole description, ODE modifiers included, survives `naunet init` *)
+Theorem options_roundtrip_full : forall c,
+  wf_cfg (with_ode c []) -> ode_ok (c_ode_mods c) ->
+  no_null (join ";"%char (flat_map print_om (c_ode_mods c))) ->
+  init_config true (print_opts c) = Some c.
+Proof. exact options_roundtrip_full_lemma. Qed.
+Print Assumptions options_roundtrip_full.
+
+(* non-vacuity: two modifiers, one with two terms, meet [ode_ok] *)
+Ltac no_sep := let H := fresh in intro H; simpl in H; repeat (destruct H as [H|H]; [discriminate|]); exact H.
+Theorem ode_modifiers_example :
+  let ms := [ {| om_key := "H2"; om_factors := ["-2.0 * k[0]"; "zeta"]; om_reactants := [["H"; "H"]; ["H2"]] |};
+              {| om_key := "CO"; om_factors := ["1.5"]; om_reactants := [["C"; "O"; "e-"]] |} ] in
+  ode_ok ms /\
+  join ";"%char (flat_map print_om ms) = "H2:-2.0 * k[0],[H H];H2:zeta,[H2];CO:1.5,[C O e-]".
+Proof.
+  split; [|vm_compute; reflexivity].
+  split.
+  - repeat constructor; simpl; intuition discriminate.
+  - repeat constructor; simpl; try discriminate; try no_sep.
+Qed.
+Print Assumptions ode_modifiers_example.
